@@ -1,0 +1,5 @@
+//go:build !verif
+
+package lifecycle
+
+func verifYield(*StartStop, string) {}
